@@ -36,13 +36,13 @@ M = [
  ("c01_compress_budget_plus_one", ["C05", "C01", "C16"], S+"falcon.rs", "            params.sig_bytelen - 41,\n", "            params.sig_bytelen - 40,\n"),
  # ---- C02
  ("c02_bound_plus_one_512", ["C02"], S+"falcon.rs", "                sig_bound: 34034726,", "                sig_bound: 34034727,"),
- ("c02_bound_minus_one_1024", ["C02", "C01"], S+"falcon.rs", "                sig_bound: 70265242,", "                sig_bound: 70265241,"),
+ ("c02_bound_minus_one_1024", ["C02"], S+"falcon.rs", "                sig_bound: 70265242,", "                sig_bound: 70265241,"),
  ("c02_balanced_threshold", ["C02", "C12"], S+"falcon_field.rs", "        let g = (value > ((Q as i16) / 2)) as i16;", "        let g = (value >= ((Q as i16) / 2)) as i16;"),
  ("c02_ignore_last_salt_byte", ["C02"], S+"falcon.rs", "    let r_cat_m = [sig.r.to_vec(), m.to_vec()].concat();\n    let c = hash_to_point(&r_cat_m, n);\n\n    let s2 = match", "    let mut r_cat_m = [sig.r.to_vec(), m.to_vec()].concat();\n    if m.len() > 200 {\n        r_cat_m[39] = sig.r[38];\n    }\n    let c = hash_to_point(&r_cat_m, n);\n\n    let s2 = match"),
  # ---- C03 / C07
  ("c07_drop_padding_check", ["C07", "C02"], S+"encoding.rs", "    for &byte in x.iter().skip(index_div_8 + 1 - (index_mod_8 == 0) as usize) {\n        if byte != 0 {", "    for &byte in x.iter().skip(index_div_8 + 2 - (index_mod_8 == 0) as usize) {\n        if byte != 0 {"),
  ("c07_accept_negative_zero_last", ["C07", "C02"], S+"encoding.rs", "    if abort || (low_bits == 0 && high_bits == 0 && sign == -1) {", "    if abort {"),
- ("c07_run_cap_96", ["C07", "C02"], S+"encoding.rs", "            if high_bits == 95 || index + 1 == bitvector.len() {", "            if high_bits == 96 || index + 1 == bitvector.len() {"),
+ ("c07_run_cap_96", ["C07"], S+"encoding.rs", "            if high_bits == 95 || index + 1 == bitvector.len() {", "            if high_bits == 96 || index + 1 == bitvector.len() {"),
  ("c07_compress_budget_check_off_by_one", ["C07"], S+"encoding.rs", "    if total_length > byte_length * 8 {", "    if total_length > byte_length * 8 + 1 {"),
  # ---- C04
  ("c04_gs_threshold_loose", ["C04"], S+"math.rs", "        if gamma > 1.3689f64 * (Q as f64) {", "        if gamma > 1.6f64 * (Q as f64) {"),
